@@ -1092,6 +1092,9 @@ class RTCPeerConnection(AsyncIOEventEmitter):
                 await iceTransport.start(self.__remoteIce[transceiver])
                 if dtlsTransport.state == "new":
                     await dtlsTransport.start(self.__remoteDtls[transceiver])
+                if self.__isClosed:
+                    # close() has already stopped the senders and receivers
+                    return
                 if dtlsTransport.state == "connected":
                     if transceiver.currentDirection in ["sendonly", "sendrecv"]:
                         await transceiver.sender.send(self.__localRtp(transceiver))
@@ -1109,6 +1112,8 @@ class RTCPeerConnection(AsyncIOEventEmitter):
                 await iceTransport.start(self.__remoteIce[self.__sctp])
                 if dtlsTransport.state == "new":
                     await dtlsTransport.start(self.__remoteDtls[self.__sctp])
+                if self.__isClosed:
+                    return
                 if dtlsTransport.state == "connected":
                     await self.__sctp.start(
                         self.__sctpRemoteCaps, self.__sctpRemotePort
